@@ -126,6 +126,9 @@ func (bucket *TypedBucket) GetOrCreateBucket(name string) *TypedBucket {
 	if child != nil {
 		return NewTypedBucket(bucket, child)
 	}
+	if err := verifHook("tb.GetOrCreateBucket"); err != nil {
+		return ErrBucket(err)
+	}
 	child, err := bucket.CreateBucketIfNotExists(key)
 	if err != nil {
 		return ErrBucket(err)
@@ -154,12 +157,18 @@ func (bucket *TypedBucket) GetBucketByKey(key []byte) *TypedBucket {
 
 func (bucket *TypedBucket) DeleteEntity(id string) {
 	if bucket.Err == nil {
+		if bucket.Err = verifHook("tb.DeleteEntity"); bucket.Err != nil {
+			return
+		}
 		bucket.Err = bucket.DeleteBucket([]byte(id))
 	}
 }
 
 func (bucket *TypedBucket) DeleteValue(key []byte) *TypedBucket {
 	if bucket.Err == nil {
+		if bucket.Err = verifHook("tb.DeleteValue"); bucket.Err != nil {
+			return bucket
+		}
 		bucket.Err = bucket.Delete(key)
 	}
 	return bucket
@@ -167,6 +176,9 @@ func (bucket *TypedBucket) DeleteValue(key []byte) *TypedBucket {
 
 func (bucket *TypedBucket) PutValue(key []byte, value []byte) *TypedBucket {
 	if bucket.Err == nil {
+		if bucket.Err = verifHook("tb.PutValue"); bucket.Err != nil {
+			return bucket
+		}
 		bucket.Err = bucket.Put(key, value)
 	}
 	return bucket
@@ -210,6 +222,9 @@ func (bucket *TypedBucket) GetOrCreatePath(path ...string) *TypedBucket {
 }
 
 func (bucket *TypedBucket) EmptyBucket(name string) (*TypedBucket, error) {
+	if err := verifHook("tb.EmptyBucket"); err != nil {
+		return nil, err
+	}
 	key := []byte(name)
 	child := bucket.Bucket.Bucket(key)
 	if child != nil {
@@ -253,6 +268,9 @@ func PrependFieldType(fieldType FieldType, value []byte) []byte {
 }
 
 func (bucket *TypedBucket) setTyped(fieldType FieldType, name string, value []byte) {
+	if bucket.Err = verifHook("tb.setTyped"); bucket.Err != nil {
+		return
+	}
 	if fieldType == TypeNil || value == nil {
 		bucket.Err = bucket.Put([]byte(name), []byte{byte(TypeNil)})
 	} else {
@@ -382,6 +400,9 @@ func (bucket *TypedBucket) SetBool(name string, value bool, checker FieldChecker
 		if value {
 			buf[1] = 1
 		}
+		if bucket.Err = verifHook("tb.SetBool"); bucket.Err != nil {
+			return bucket
+		}
 		bucket.Err = bucket.Put([]byte(name), buf)
 	}
 	return bucket
@@ -456,6 +477,9 @@ func (bucket *TypedBucket) SetFloat64(name string, value float64, fieldChecker F
 		buf := make([]byte, 9) // 1 byte for type + 8 bytes for float64
 		buf[0] = byte(TypeFloat64)
 		binary.LittleEndian.PutUint64(buf[1:], math.Float64bits(value))
+		if bucket.Err = verifHook("tb.SetFloat64"); bucket.Err != nil {
+			return bucket
+		}
 		bucket.Err = bucket.Put([]byte(name), buf)
 	}
 	return bucket
@@ -466,6 +490,9 @@ func (bucket *TypedBucket) SetInt64(name string, value int64, fieldChecker Field
 		buf := make([]byte, 9) // 1 byte for type + 8 bytes for int64
 		buf[0] = byte(TypeInt64)
 		binary.LittleEndian.PutUint64(buf[1:], uint64(value))
+		if bucket.Err = verifHook("tb.SetInt64"); bucket.Err != nil {
+			return bucket
+		}
 		bucket.Err = bucket.Put([]byte(name), buf)
 	}
 	return bucket
@@ -514,6 +541,9 @@ func Int32ToBytes(value int32) []byte {
 func (bucket *TypedBucket) SetInt32(name string, value int32, fieldChecker FieldChecker) *TypedBucket {
 	if bucket.ProceedWithSet(name, fieldChecker) {
 		buf := Int32ToBytes(value)
+		if bucket.Err = verifHook("tb.SetInt32"); bucket.Err != nil {
+			return bucket
+		}
 		bucket.Err = bucket.Put([]byte(name), buf)
 	}
 	return bucket
@@ -675,6 +705,9 @@ func (bucket *TypedBucket) CheckAndSetListEntry(fieldType FieldType, value []byt
 	if !bucket.HasError() {
 		key := PrependFieldType(fieldType, value)
 		if !bucket.IsKeyPresent(key) {
+			if bucket.SetError(verifHook("tb.CheckAndSetListEntry")) {
+				return false, bucket.Err
+			}
 			if bucket.SetError(bucket.Put(key, nil)) {
 				return false, bucket.Err
 			}
@@ -692,6 +725,9 @@ func (bucket *TypedBucket) SetLinkCount(fieldType FieldType, value []byte, count
 			return nil, nil
 		}
 		if current != nil && count == 0 {
+			if err := verifHook("tb.SetLinkCount"); err != nil {
+				return current, err
+			}
 			err := bucket.Delete([]byte(key))
 			return current, err
 		}
@@ -724,6 +760,9 @@ func (bucket *TypedBucket) DecrementLinkCount(fieldType FieldType, value []byte)
 			if next > 0 {
 				bucket.SetInt32(key, next, nil)
 			} else {
+				if bucket.SetError(verifHook("tb.DecrementLinkCount")) {
+					return result, bucket.GetError()
+				}
 				bucket.SetError(bucket.Delete([]byte(key)))
 			}
 			result = int(next)
@@ -741,6 +780,9 @@ func (bucket *TypedBucket) GetLinkCount(fieldType FieldType, value []byte) *int3
 
 func (bucket *TypedBucket) SetListEntry(fieldType FieldType, value []byte) *TypedBucket {
 	if !bucket.HasError() {
+		if bucket.SetError(verifHook("tb.SetListEntry")) {
+			return bucket
+		}
 		bucket.SetError(bucket.Put(PrependFieldType(fieldType, value), nil))
 	}
 	return bucket
@@ -750,6 +792,9 @@ func (bucket *TypedBucket) CheckAndDeleteListEntry(fieldType FieldType, value []
 	if !bucket.HasError() {
 		key := PrependFieldType(fieldType, value)
 		if bucket.IsKeyPresent(key) {
+			if bucket.SetError(verifHook("tb.CheckAndDeleteListEntry")) {
+				return false, bucket.Err
+			}
 			if bucket.SetError(bucket.Delete(key)) {
 				return false, bucket.Err
 			}
@@ -761,6 +806,9 @@ func (bucket *TypedBucket) CheckAndDeleteListEntry(fieldType FieldType, value []
 
 func (bucket *TypedBucket) DeleteListEntry(fieldType FieldType, value []byte) *TypedBucket {
 	if !bucket.HasError() {
+		if bucket.SetError(verifHook("tb.DeleteListEntry")) {
+			return bucket
+		}
 		bucket.SetError(bucket.Delete(PrependFieldType(fieldType, value)))
 	}
 	return bucket
